@@ -84,8 +84,12 @@ def run(repo, rep, tier):
               if isinstance(a_, ast.Assign) and isinstance(
                   a_.targets[0], ast.Subscript)
               and src(a_.targets[0].value) == "namespace"]
+    tests_ = [src(L._CanonIf._pos(n_.test)[0]).replace(" ", "")
+              for n_ in ast.walk(un.node) if isinstance(n_, ast.If)]
     rep.check("namespace[None]" in stores and any(
-        "name[6:]" in s_ for s_ in stores), "R18.3", un.qualname, "a "
+        "name[6:]" in s_ for s_ in stores) and
+        any(t_ in ("name=='xmlns'", "'xmlns'==name") for t_ in tests_) and
+        "name.startswith('xmlns:')" in tests_, "R18.3", un.qualname, "a "
         "default declaration (xmlns=...) and a prefixed one (xmlns:p=...) "
         "are both entered in the element's prefix map",
         construct="declarations-recorded", where=L.where(un),
